@@ -125,6 +125,24 @@ fn inputs(thorough: bool) -> Vec<Vec<u8>> {
         s.push(0x01);
         v.push(s);
     }
+    // the word-size boundary of the LEB decoder: 7..12 continuation bytes (payload
+    // bits all-zero or all-one) followed by EVERY tail of length 1..3 over a
+    // 9-value alphabet (which of the bytes around the 10th chunk carry bits that
+    // no longer fit is exactly what an overflow guard has to get right)
+    let tail_alpha = [0x00u8, 0x01, 0x02, 0x7e, 0x7f, 0x80, 0x81, 0xfe, 0xff];
+    for k in 7..=12usize {
+        for c in [0x80u8, 0xff] {
+            for a in tail_alpha {
+                v.push([vec![c; k], vec![a]].concat());
+                for b in tail_alpha {
+                    v.push([vec![c; k], vec![a, b]].concat());
+                    for d in tail_alpha {
+                        v.push([vec![c; k], vec![a, b, d]].concat());
+                    }
+                }
+            }
+        }
+    }
     // block shapes [01 filler][len][payload shorter / equal / longer][next len]
     for len in [1u8, 2, 31, 62, 63, 254, 255] {
         for have in [0usize, 1, (len as usize).saturating_sub(1), len as usize, len as usize + 1, len as usize + 2] {
